@@ -38,9 +38,10 @@ def tla(v):
 def model(maxlen, handler, bug=None, timeout=900):
     mc = "---- MODULE MCServe ----\nEXTENDS Serve\nL == %s\n====\n" % tla(LETTERS)
     cfg = ["SPECIFICATION SSpec", "CONSTANTS", " Letters <- L", " MaxLen = %d" % maxlen, " HasHandler = %s" % tla(handler)]
-    for b in ("BugAckBeforeHandler", "BugDeliverOnPublish", "BugKeepAfterRelease"):
+    for b in ("BugAckBeforeHandler", "BugDeliverOnPublish", "BugKeepAfterRelease", "BugCompBeforeHandover"):
         cfg.append(" %s = %s" % (b, tla(b == bug)))
-    cfg += ["CHECK_DEADLOCK FALSE", "INVARIANTS ImplConforms BufferSound"]
+    cfg.append(" AllowWriteFail = TRUE")
+    cfg += ["CHECK_DEADLOCK FALSE", "INVARIANTS ImplConforms BufferSound ImplHandsOver"]
     return vlib.tlc("MCServe", cfg="MCServe.cfg", files={"MCServe.tla": mc, "MCServe.cfg": "\n".join(cfg) + "\n"},
                     workers=min(12, vlib.NCPU), timeout=timeout, heap="8g")
 
@@ -55,14 +56,26 @@ def scenarios(tier, rng):
                 out.append({"id": "e%d" % i, "letters": [LETTERS[k] for k in seq], "handler": h, "slow": False})
                 i += 1
                 if h and ln <= 2:
+                    # topic names with multi-byte UTF-8 characters: identifier and payload follow the topic's BYTES
+                    out.append({"id": "e%d" % i, "letters": [LETTERS[k] for k in seq], "handler": True, "slow": False, "topic": "s/\u6e29\u5ea6/z\u00fcrich"})
+                    i += 1
                     # the handler uses the client (publishes a reply) while the reader goroutine is inside it
                     out.append({"id": "e%d" % i, "letters": [LETTERS[k] for k in seq], "handler": True, "slow": False, "reply": True})
                     i += 1
+    # the acknowledgement cannot be written (half-broken transport): what was consumed has still been handed over
+    Q1, Q2, R = {"p": "PUB", "q": 1, "id": 1, "dup": False}, {"p": "PUB", "q": 2, "id": 2, "dup": False}, {"p": "REL", "id": 2}
+    for pre in ([], [{"p": "PUB", "q": 0, "id": 0, "dup": False}], [Q1]):
+        for seq, pk in (([Q1], "PUBACK"), ([Q2, R], "PUBCOMP"), ([Q2, dict(Q2, dup=True), R], "PUBCOMP"), ([Q2, R, Q1], "PUBCOMP"), ([Q2], "PUBREC")):
+            for o in ("cutBefore", "cutAfter"):
+                nth = 1 + sum(1 for x in pre if pk == "PUBACK" and x.get("q") == 1)
+                out.append({"id": "f%d" % i, "letters": pre + seq, "handler": True, "slow": False, "faults": [{"p": pk, "n": nth, "o": o}]})
+                i += 1
     nrand = 3000 if tier == "quick" else 40000
     for j in range(nrand):
         ln = rng.randint(full + 1, 40 if j % 4 == 0 else 9)
         out.append({"id": "r%d" % j, "letters": [rng.choice(LETTERS) for _ in range(ln)], "handler": rng.random() < 0.8,
-                    "slow": rng.random() < 0.15, "reply": rng.random() < 0.1})
+                    "slow": rng.random() < 0.15, "reply": rng.random() < 0.1,
+                    "topic": rng.choice(["", "", "s/\u6e29\u5ea6/z\u00fcrich", "\u00e9", "a/b/c/d/e/f", "$SYS/x"])})
     return out, i
 
 
@@ -108,6 +121,8 @@ def validate(results, per=4000):
 def classify(r):
     """Which clause of the statement a nonconforming timeline breaks (witness kind)."""
     tl = r["tl"]
+    if r.get("faulty"):
+        return "consumed-but-not-handed-over"
     if r.get("err"):
         return "connection-ended"
     if any(e[0] == "close" for e in tl):
@@ -139,11 +154,11 @@ def run(tier):
         mstates += r.states
         mgen += r.generated
     bugs = {}
-    for b in ("BugAckBeforeHandler", "BugDeliverOnPublish", "BugKeepAfterRelease"):
+    for b in ("BugAckBeforeHandler", "BugDeliverOnPublish", "BugKeepAfterRelease", "BugCompBeforeHandover"):
         r = model(3, True, bug=b, timeout=300)
         bugs[b] = r.violated
-        if r.violated != "ImplConforms":
-            raise vlib.Infra("non-vacuity: switch %s did not violate ImplConforms (%s)" % (b, r.violated))
+        if r.violated != ("ImplHandsOver" if b == "BugCompBeforeHandover" else "ImplConforms"):
+            raise vlib.Infra("non-vacuity: switch %s did not violate its invariant (%s)" % (b, r.violated))
     # real code
     scs, nexh = scenarios(tier, rng)
     byid = {s["id"]: s for s in scs}
@@ -166,7 +181,7 @@ def run(tier):
         "real_sequences_exhaustive_up_to_length": 3 if tier == "quick" else 5, "real_sequences_exhaustive": nexh,
         "real_sequences_random": len(scs) - nexh, "distinct_timelines": distinct,
         "evaluations": len(results), "distinct_nontrivial": distinct,
-        "rule": "every packet sequence over the 12-letter alphabet up to the bound, with and without a handler, plus seeded random sequences up to length 40; distinct = distinct recorded timelines",
+        "rule": "every packet sequence over the 12-letter alphabet up to the bound, with and without a handler (also a re-entrant one that publishes a QoS 0 reply through the client from inside Serve), plus seeded random sequences up to length 40; distinct = distinct recorded timelines",
         "samples": [{"input": byid.get(sample.get("id"), {}).get("letters"), "timeline": sample.get("tl")}],
         "exhaustive": True,
     }, time.time() - t0, ["the broker side sends well-formed packets only (malformed input is C06)",
